@@ -146,6 +146,19 @@ func (c *Conn) Close() error {
 	return nil
 }
 
+// PeerGone makes this end see a peer that has gone away completely: reads return EOF (after what was already
+// written to it), writes fail.  Unlike closing the other end it can be done before anybody uses the pair.
+func (c *Conn) PeerGone() {
+	c.r.mu.Lock()
+	c.r.wclosed = true
+	c.r.cond.Broadcast()
+	c.r.mu.Unlock()
+	c.w.mu.Lock()
+	c.w.rclosed = true
+	c.w.cond.Broadcast()
+	c.w.mu.Unlock()
+}
+
 // SetPeerWindow bounds what the peer may write to this end without it being read (0 = unbounded): like a
 // TCP receive window, a peer writing to an end that has stopped reading eventually blocks.
 func (c *Conn) SetPeerWindow(n int) {
